@@ -112,8 +112,18 @@ partial def specOf (j : Json) : Option Spec :=
     let b ← if bufsize.isNull then some none else (nat? bufsize).map some
     some (.split bs b)
   | some "syn" => do
-    some (.syn (← attrOf (getD j "run")) (← bool? (getD j "call")) (← attrOf (getD j "fill"))
-      (← attrOf (getD j "compute")) (← bool? (getD j "nodata")))
+    let r ← attrOf (getD j "run")
+    let c ← bool? (getD j "call")
+    let f ← attrOf (getD j "fill")
+    let p ← attrOf (getD j "compute")
+    let n ← bool? (getD j "nodata")
+    if (getD j "request").isNull then some (.syn r c f p n)
+    else some (.synX r c f p n (← attrOf (getD j "request")) (← attrOf (getD j "fill_into"))
+                (← attrOf (getD j "reset")) (← attrOf (getD j "alter")))
+  | some "iterobj" => do
+    let t := getD j "term"
+    let term ← if t.isNull then some none else (excOf (← str? t)).map some
+    some (.iterObj (← str? (getD j "cls")) (← valuesOf (getD j "flow")) term)
   | some "run" => do some (.runAdapter (← specOf (getD j "el")))
   | some "runnamed" => do some (.runNamed (← specOf (getD j "el")))
   | some "runnone" => do some (.runNone (← fnOf (← str? (getD j "f"))))
@@ -287,6 +297,7 @@ def handle (j : Json) : Json :=
           ("nodata", Json.bool el.hasNoData), ("iter", Json.bool el.hasIter),
           ("fill_into", Json.bool (el.fillInto.present && el.fillInto.callable)),
           ("can_break_flow", Json.bool el.canBreakFlow), ("is_split", Json.bool el.isSplit),
+          ("request", ofNat (attrNat el.request)), ("fill_into_attr", ofNat (attrNat el.fillInto)),
           ("convertible", Json.bool el.convertible)]
     | none => err "bad flags args"
   | _ => err "unknown op"
